@@ -29,9 +29,15 @@ CLAIMED = {
         note="Trusted: the SQLite engine and its file locking (real, not simulated); crash = byte copy between two API calls; identifiers differing only by case and conflicting column re-declarations are outside the domain.",
         technique="deterministic simulation: seeded schedule of observer looks / lock holders / crash snapshots between writer calls against a committed-prefix reference model, real SQLite engine",
     ),
+    "C11": dict(
+        category="exploration", design_ref="DESIGN.md 5.3",
+        text="Deterministic simulation of how bytes arrive: files written by the library (one or two writers open at once) in every cell of the codec x container matrix are verified with each format's independent decompressor and then read back through nine ways of naming the source; for file objects and standard input the simulator owns the delivery schedule of the raw reads (whole, tiny first chunk, one byte at a time, chunk boundaries inside the codec magic / stream header / Avro magic). The fault-free result is the reference: naming and delivery must not change the records or the reader class. Seeded garbage (incl. magic-prefixed, compressed non-streams and shifted-header near misses) must be refused. The matrix is enumerated, record sequences, schedules and garbage are sampled.",
+        note="Trusted: gzip/bz2/lz4/zstandard/fastavro as independent decoders. Short raw reads are applied to pipes-like sources (file objects, stdin) only. One known finding (single-shot peek on a short first raw read) is listed in KNOWN_FINDINGS.txt and matched counterfactually.",
+        technique="deterministic simulation: seeded pipe/stdin delivery schedules over an exhaustive codec x container x naming matrix, fault-free run as reference model",
+    ),
 }
 
-BUILDING = {k: "simulation target per DESIGN.md; its check is still under construction and is therefore not claimed yet" for k in ("C11", "C16")}
+BUILDING = {k: "simulation target per DESIGN.md; its check is still under construction and is therefore not claimed yet" for k in ("C16",)}
 
 NOT_APPLICABLE = {
     "C01": "pure encode/decode function of its input (value identity of the codec): no schedule, clock, fault or crash point for a simulator to own; its I/O side is simulated under C04/C11/C03",
